@@ -19,7 +19,6 @@ import (
 	"sort"
 	"strconv"
 	"strings"
-	"sync"
 	"testing"
 	"time"
 
@@ -963,11 +962,11 @@ func (rp *vshReplayer) canon() string {
 
 type vshExplorer struct {
 	probeEvery bool
-	tb     testing.TB
-	c      *vkit.Check
-	oracle func(cs vshCase, r *vshRun) []vshFinding
-	cover  func(cs vshCase, r *vshRun) // coverage accounting; runs on worker goroutines
-	stop   time.Time                   // soft budget: no new level / batch is started after it
+	tb         testing.TB
+	c          *vkit.Check
+	oracle     func(cs vshCase, r *vshRun) []vshFinding
+	cover      func(cs vshCase, r *vshRun) // coverage accounting; runs on worker goroutines
+	stop       time.Time                   // soft budget: no new level / batch is started after it
 }
 
 type vshLight struct {
@@ -1311,5 +1310,3 @@ func vshSynCases(cfgs []vshCfg, quick, withUnknown bool) []vshCase { //nolint:go
 
 	return out
 }
-
-var vshCoverMu sync.Mutex
